@@ -62,6 +62,23 @@ REWARDS = [
     _inst('reach_exit_memory'),
     _inst('reach_exit_memory', reward_good=3.0, reward_bad=-2.5),
 ]
+# parameter values that are zero / equal to each other are parameter values too; these instances are built the way a
+# configuration file builds them (YAML-shaped dictionary through the configuration loader's reward factory)
+FIRST_YAML = len(REWARDS)
+REWARDS += [
+    _inst('living_reward', reward=0.0),
+    _inst('reach_exit', reward_on=0.0, reward_off=2.0),
+    _inst('overlap', object_type='Exit', reward_on=0, reward_off=-1.5),
+    _inst('bump_into_wall', reward=0.0),
+    _inst('bump_moving_obstacle', reward=0),
+    _inst('getting_closer', object_type='Exit', distance_function='manhattan', reward_closer=2.0, reward_further=0.0),
+    _inst('getting_closer', object_type='Exit', distance_function='euclidean', reward_closer=0.0, reward_further=0.0),
+    _inst('getting_closer_shortest_path', object_type='Exit', reward_closer=0.0, reward_further=3.0),
+    _inst('proportional_to_distance', object_type='Exit', distance_function='manhattan', reward_per_unit_distance=0.0),
+    _inst('actuate_door', reward_open=0.0, reward_close=-1.5),
+    _inst('pickndrop', object_type='Key', reward_pick=0.0, reward_drop=0.0),
+    _inst('reach_exit_memory', reward_good=0.0, reward_bad=0.0),
+]
 TERMS = [
     _inst('overlap', object_type='Key'),
     _inst('overlap', object_type='Exit'),
@@ -80,7 +97,10 @@ def real_reward(i, via):
     if key not in _cache:
         name, kw = REWARDS[i]
         rk = RR.real_kwargs(kw)
-        if via == 'factory':
+        if via == 'yaml':
+            from gym_gridverse.envs.yaml.factory import factory_reward_function
+            _cache[key] = factory_reward_function(dict(kw, name=name))
+        elif via == 'factory':
             _cache[key] = RW.factory(name, **rk)
         else:
             fn = RW.reward_function_registry[name]
@@ -143,7 +163,7 @@ def judge_triple(s, a, s2, st=None, st2=None, composites=True, only=None):
         if not RR.precondition(name, kw, s, s2):
             continue
         want = RR.REWARD_REF[name](s, a, s2, **kw)
-        vias = ('factory', 'direct') if not kw else ('factory',)
+        vias = ('yaml',) if i >= FIRST_YAML else (('factory', 'direct') if not kw else ('factory',))
         for via in vias:
             fn = real_reward(i, via)
             n += 1
@@ -358,6 +378,24 @@ def maze_triples():
         yield (rows, 2, 0, 'F', NONE), 'MOVE_FORWARD', (rows, 0, 0, 'F', NONE)
 
 
+def far_triples():
+    """a long corridor: steps at right angles to the direction of a far-away target change the Euclidean distance by ~1/(2d)
+    (still a change: the shaping reward has its sign), steps along it by 1"""
+    for h, w in ((3, 300), (300, 3)):
+        rows = [[U.FLOOR] * w for _ in range(h)]
+        ky, kx = (1, 0) if w > h else (0, 1)
+        rows[ky][kx] = U.key(U.C1)
+        rows[h - 1][w - 1] = U.exit_(0)
+        rows = tuple(tuple(r) for r in rows)
+        for d in (1, 2, 9, 99, 199, 223, 224, 230, 249, 298):
+            if w > h:
+                a, b, c = (1, d), (2, d), (1, d + 1)
+            else:
+                a, b, c = (d, 1), (d, 2), (d + 1, 1)
+            for p, q in ((a, b), (b, a), (a, c), (c, a)):
+                yield (rows, p[0], p[1], 'F', NONE), 'MOVE_FORWARD', (rows, q[0], q[1], 'F', NONE)
+
+
 def memory_universe():
     """states with a beacon and TWO exits, colours over {C1, C2}^2 (so that several exits may match the beacon)"""
     out = []
@@ -420,6 +458,9 @@ def replay(case):
         return reach.replay_trace(case, make_hooks)
     if case['kind'] == 'mutation_history':
         return judge_mutation_history(tup(case['s']), case['a'], tup(case['s2']), tup(case['s3']))[1]
+    if case['kind'] == 'far':
+        dist_only = {('r', i) for i, (nm, _) in enumerate(REWARDS) if nm in ('getting_closer', 'proportional_to_distance')}
+        return judge_triple(tup(case['s']), case['a'], tup(case['s2']), composites=False, only=dist_only)[1]
     if case['kind'] == 'maze':
         sp_only = {('r', i) for i, (nm, _) in enumerate(REWARDS) if nm == 'getting_closer_shortest_path'}
         return judge_triple(tup(case['s']), case['a'], tup(case['s2']), composites=False, only=sp_only)[1]
@@ -479,6 +520,14 @@ def run(rep, tier, seed):
         if m and len([e for e in extra if e['kind'] == 'maze']) < 2:
             extra.append({'kind': 'maze', 's': s1, 'a': a, 's2': s2, 'message': m, 'sig': dict(sig, part='maze')})
     rep.part('serpentine_mazes', evaluations=mz, shapes=['9x9', '7x11', '11x7', '13x5'])
+    dist_only = {('r', i) for i, (nm, _) in enumerate(REWARDS) if nm in ('getting_closer', 'proportional_to_distance')}
+    fz = 0
+    for s1, a, s2 in far_triples():
+        k, m, sig = judge_triple(s1, a, s2, composites=False, only=dist_only)
+        fz += k
+        if m and len([e for e in extra if e['kind'] == 'far']) < 2:
+            extra.append({'kind': 'far', 's': s1, 'a': a, 's2': s2, 'message': m, 'sig': dict(sig, part='far_targets')})
+    rep.part('far_targets', evaluations=fz, shapes=['3x300', '300x3'])
     k, m = judge_subclass_overlap()
     if m:
         extra.append({'kind': 'subclass_overlap', 'message': m, 'sig': {'part': 'subclass_overlap'}})
